@@ -268,6 +268,11 @@ func genConc(r *rand.Rand, tcp bool) *Case {
 
 func run(m *mon.M) {
 	r := m.Rand("cases")
+	for i := 0; i < m.N(16, 200); i++ {
+		od := &OpDefaults{Kind: "op-client-defaults", OpJar: i&1 != 0, Warm: i&2 != 0, OpTransport: i&4 != 0}
+		m.Begin(od)
+		runOpDefaults(m, od)
+	}
 	nseq := m.N(2500, 40000)
 	nseqTCP := m.N(60, 1500)
 	nconc := m.N(40, 600)
